@@ -126,6 +126,8 @@ class Execution(object):
         if pending is None:
             return None
         if pending[0] in ("Acq", "Rel", "Obs"):
+            if pending[1].name is None:          # a mutex created after construction (not part of the modelled structure)
+                pending[1].name = "late%d" % self.shim.locks.index(pending[1])
             return (pending[0], pending[1].name)
         if pending[0] in ("Rd", "Wr"):
             return (pending[0], self.obj_name.get(id(pending[2]), "?"))
